@@ -239,6 +239,12 @@ class RawGen:
                         outs = [{"t": "nslice", "i": self.r.randrange(3)}]
                     if self.ch(0.5):
                         opts["as"] = [{"k": "iface", "ty": iface(self.r.randrange(2))}]
+                if self.ch(0.08):
+                    # Name together with several distinct As interfaces on one positional result
+                    outs = [{"t": "ptr", "e": named(self.r.randrange(3))} if self.ch(0.7) else named(self.r.randrange(3))]
+                    k = self.r.choice([2, 2, 3])
+                    opts["group"], opts["name"] = None, self.r.choice([1, 2, 0])
+                    opts["as"] = [{"k": "iface", "ty": iface(i)} for i in self.r.sample(range(4), k)]
                 raw = self.value_kind(self.func(self.r.choice([0, 0, 1, 1, 2]), self.with_error(outs)))
                 self.note_outputs(outs)
                 ops.append({"op": "rawprovide", "scope": s, "fn": fn, "raw": raw, "opts": opts})
@@ -253,7 +259,7 @@ class RawGen:
                 raw = self.value_kind(self.func(self.r.choice([1, 1, 2, 3]), outs))
                 ops.append({"op": "rawinvoke", "scope": s, "fn": fn, "raw": raw, "opts": None})
         return {"id": cid, "profile": "raw", "config": {"defer": self.ch(0.3), "recover": self.ch(0.5), "dry": True},
-                "fns": [], "ops": ops}
+                "share_info": self.ch(0.4), "fns": [], "ops": ops}
 
 
 def generate(seed, count, valid_bias=0.7):
